@@ -206,7 +206,8 @@ theorem massLabel_coherent (E : Env) (hc : Coherent E) (b : Annotation) (L : Lis
   have hm := modComposition_mass E hc b
   have hs := chemMass_relabel E.em lm _ (nodupKeys_sequenceComposition E b)
   rw [labelShift_sequenceComposition E hc, chemMass_sequenceComposition E hc] at hs
-  simp only [massLabel, compMassOf, hcond, hbad, hiso, hl, hc.noIsoMods, Bool.false_eq_true, if_false,
+  have hrule := absentRuleBad_static_none E b hst
+  simp only [massLabel, compMassOf, hcond, hbad, hrule, Bool.or_self, hiso, hl, hc.noIsoMods, Bool.false_eq_true, if_false,
     chemMass_dropZeros, chemMass_compAdd, chemMass, hs]
   congr 1
   linarith
